@@ -35,7 +35,9 @@ theorem rtb_lawful_on_box (p0 p1 : K) (rb : Option (K × K)) (inv : Option InvTy
     (prior : Bool) (r0 : Rtb K) (hp : p0 < p1) (hrb : ∀ b, rb = some b → b.1 ≠ b.2)
     (h : rtbInit p0 p1 rb inv oinv det off upd none none false prior = .ok r0)
     (test : Edge) (neg : Bool) (x : K) (hx0 : p0 ≤ x) (hx1 : x ≤ p1) :
-    ScalarLawfulAt (rtbFwd (rtbDetect r0 test) neg) (rtbInv (rtbDetect r0 test)) x := by
+    ScalarLawfulAt (rtbFwd (rtbDetect r0 test) neg) (rtbInv (rtbDetect r0 test)) x ∧
+    0 < (rtbFwd (rtbDetect r0 test) neg x).2 ∧
+    0 < (rtbInv (rtbDetect r0 test) (rtbFwd (rtbDetect r0 test) neg x).1).2 := by
   have hr0 := rtbInit_ok p0 p1 rb inv oinv det off upd none none false prior r0 h
   obtain ⟨hpre, hpost, hinv, _, hb0, hb1, hrr⟩ := rtbMk_fields p0 p1 rb inv det off upd none prior
   rw [← hr0] at hpre hpost hinv hb0 hb1 hrr
@@ -44,8 +46,9 @@ theorem rtb_lawful_on_box (p0 p1 : K) (rb : Option (K × K)) (inv : Option InvTy
   have hw : 0 < p1 - p0 := sub_pos.mpr hp
   have hbb : r.b1 - r.b0 = p1 - p0 := by rw [d0, d1, hb0, hb1]; ring
   have hpreF : ∀ t, (r.preF t).1 = t := by intro t; unfold Rtb.preF; rw [dpre, hpre]
-  refine rtb_lawful r neg x ?_ ?_ ?_ (hooksOK_none r neg x (by rw [dpre, hpre]) (by rw [dpost, hpost]))
-  · intro e; rw [e, sub_self] at hbb; linarith
+  refine rtb_lawful_pos r neg x ?_ ?_ ?_ (hooksOK_none r neg x (by rw [dpre, hpre]) (by rw [dpost, hpost]))
+    (hooksPos_none r neg x (by rw [dpre, hpre]) (by rw [dpost, hpost]))
+  · linarith
   · intro hnone
     rw [dinv, hinv] at hnone
     have this : (r.r0, r.r1) = rb.getD ((-1 : K), (1 : K)) := by
@@ -76,7 +79,9 @@ theorem rtb_lawful_after_update (r0 : Rtb K) (d : K) (ds : List K) (hupd : r0.up
     (hmM : minL d ds < maxL d ds) (test : Edge) (neg : Bool) (x : K)
     (hside : (rtbDetect (rtbUpdate r0 (d :: ds)) test).reflects →
       if (rtbDetect (rtbUpdate r0 (d :: ds)) test).edge = .upper then x ≤ maxL d ds else minL d ds ≤ x) :
-    ScalarLawfulAt (rtbFwd (rtbDetect (rtbUpdate r0 (d :: ds)) test) neg) (rtbInv (rtbDetect (rtbUpdate r0 (d :: ds)) test)) x := by
+    ScalarLawfulAt (rtbFwd (rtbDetect (rtbUpdate r0 (d :: ds)) test) neg) (rtbInv (rtbDetect (rtbUpdate r0 (d :: ds)) test)) x ∧
+    0 < (rtbFwd (rtbDetect (rtbUpdate r0 (d :: ds)) test) neg x).2 ∧
+    0 < (rtbInv (rtbDetect (rtbUpdate r0 (d :: ds)) test) (rtbFwd (rtbDetect (rtbUpdate r0 (d :: ds)) test) neg x).1).2 := by
   obtain ⟨d0, d1, doff, dpre, dpost, dinv, dr0, dr1⟩ := rtbDetect_fields (rtbUpdate r0 (d :: ds)) test
   have u0 : (rtbUpdate r0 (d :: ds)).b0 = minL d ds - r0.offset := by
     simp [rtbUpdate, hupd, Rtb.preF, hpre]
@@ -92,8 +97,9 @@ theorem rtb_lawful_after_update (r0 : Rtb K) (d : K) (ds : List K) (hupd : r0.up
   have hw : 0 < maxL d ds - minL d ds := sub_pos.mpr hmM
   have hbb : r.b1 - r.b0 = maxL d ds - minL d ds := by rw [d0, d1, u0, u1]; ring
   have hpreF : ∀ t, (r.preF t).1 = t := by intro t; unfold Rtb.preF; rw [dpre, upre]
-  refine rtb_lawful r neg x ?_ ?_ ?_ (hooksOK_none r neg x (by rw [dpre, upre]) (by rw [dpost, upost]))
-  · intro e; rw [e, sub_self] at hbb; linarith
+  refine rtb_lawful_pos r neg x ?_ ?_ ?_ (hooksOK_none r neg x (by rw [dpre, upre]) (by rw [dpost, upost]))
+    (hooksPos_none r neg x (by rw [dpre, upre]) (by rw [dpost, upost]))
+  · linarith
   · intro hnone
     rw [dr0, dr1, ur0, ur1]; exact hf (by rw [← uinv, ← dinv]; exact hnone)
   · intro hrefl
